@@ -1,3 +1,4 @@
 pub mod wgl;
 pub mod promtext;
 pub mod dogstatsd;
+pub mod protoevent;
